@@ -2195,4 +2195,209 @@ theorem validS_of_scoped (bs : List Block) (h : Scoped bs.flatten) : C03.ValidS 
   exact Or.inr (h p T hp s i a hn)
 
 
+
+-- ---------------------------------------------------------------- generic preservation along the loop
+theorem foldAll_preserves (P : List Block → List NamedOutput → Prop)
+    (hP : ∀ (d : FoldData) (i : Nat) (blocks : List Block) (outs : List NamedOutput), d.Ok i blocks outs →
+      FoldInv i blocks outs → RefCount i blocks outs → P blocks outs → P (d.blocks' blocks) (d.outs' outs)) :
+    ∀ (n i : Nat) (blocks : List Block) (outs : List NamedOutput), FoldInv i blocks outs → RefCount i blocks outs →
+      P blocks outs → ∀ b' o', foldAll n i blocks outs = .ok (b', o') → P b' o'
+  | 0, _, _, _, _, _, hp, _, _, hf => by cases hf; exact hp
+  | n + 1, i, blocks, outs, h, hc, hp, b', o', hf => by
+    rcases foldStep_shape h with hs | ⟨d, hd⟩
+    · simp only [foldAll, hs] at hf
+      exact foldAll_preserves P hP n (i + 1) blocks outs h.next hc.next hp b' o' hf
+    · simp only [foldAll, hd.hstep] at hf
+      exact foldAll_preserves P hP n (i + 1) _ _ (hd.inv h) (hd.refCount h hc) (hP d i blocks outs hd h hc hp) b' o' hf
+
+-- ---------------------------------------------------------------- trees the constructors accept
+mutual
+/-- every node is accepted by its constructor (`mkStep`, `mkSub`, `mkReference`) -/
+def Tree.wfB : Tree → Bool
+  | .ingredient .. => true
+  | .step _ i => Tree.wfBList i
+  | .reference s idx _ => decide (idx < s.numOutputs) && Tree.wfB s
+  | .sub b ns _ => b.canBeChild && !ns.isEmpty && Tree.wfB b
+def Tree.wfBList : List Tree → Bool
+  | [] => true
+  | t :: ts => t.canBeChild && Tree.wfB t && Tree.wfBList ts
+end
+
+theorem Tree.canBeChild_subst (old new t : Tree) (hr : old.isRef = true) (hn : new.canBeChild = true)
+    (ht : t.canBeChild = true) : (Tree.subst old new t).canBeChild = true := by
+  cases t with
+  | ingredient d q =>
+    have : Tree.beq (.ingredient d q) old = false := by cases old <;> simp [Tree.isRef] at hr; simp [Tree.beq]
+    simp [Tree.subst, this, Tree.canBeChild]
+  | step d i =>
+    have : Tree.beq (.step d i) old = false := by cases old <;> simp [Tree.isRef] at hr; simp [Tree.beq]
+    simp [Tree.subst, this, Tree.canBeChild]
+  | reference s j a =>
+    simp only [Tree.subst]
+    split
+    · exact hn
+    · rfl
+  | sub b ns sh =>
+    rw [Tree.subst_sub _ _ _ _ _ hr]
+    exact ht
+
+theorem Tree.numOutputs_subst (old new s : Tree) (hr : old.isRef = true) (hs : s.isSub = true) :
+    (Tree.subst old new s).numOutputs = s.numOutputs := by
+  rw [Tree.numOutputs_eq, Tree.numOutputs_eq, Tree.subNames_subst old new s hr hs]
+
+mutual
+theorem Tree.wfB_subst (old new : Tree) (hr : old.isRef = true) (hnw : new.wfB = true) (hnc : new.canBeChild = true) :
+    ∀ t : Tree, t.wfB = true → (Tree.subst old new t).wfB = true
+  | .ingredient d q, _ => by
+    have : Tree.beq (.ingredient d q) old = false := by cases old <;> simp [Tree.isRef] at hr; simp [Tree.beq]
+    simp [Tree.subst, this, Tree.wfB]
+  | .step d i, h => by
+    have : Tree.beq (.step d i) old = false := by cases old <;> simp [Tree.isRef] at hr; simp [Tree.beq]
+    simp only [Tree.subst, this, Bool.false_eq_true, if_false, Tree.wfB] at h ⊢
+    exact Tree.wfBList_subst old new hr hnw hnc i h
+  | .reference s j a, h => by
+    simp only [Tree.subst]
+    split
+    · exact hnw
+    · simp only [Tree.wfB, Bool.and_eq_true, decide_eq_true_eq] at h ⊢
+      have hsub : s.isSub = true := by
+        cases s <;> simp [Tree.numOutputs] at h <;> rfl
+      exact ⟨by rw [Tree.numOutputs_subst old new s hr hsub]; exact h.1, Tree.wfB_subst old new hr hnw hnc s h.2⟩
+  | .sub b ns sh, h => by
+    rw [Tree.subst_sub _ _ _ _ _ hr]
+    simp only [Tree.wfB, Bool.and_eq_true] at h ⊢
+    exact ⟨⟨Tree.canBeChild_subst old new b hr hnc h.1.1, h.1.2⟩, Tree.wfB_subst old new hr hnw hnc b h.2⟩
+theorem Tree.wfBList_subst (old new : Tree) (hr : old.isRef = true) (hnw : new.wfB = true)
+    (hnc : new.canBeChild = true) : ∀ ts : List Tree, Tree.wfBList ts = true →
+    Tree.wfBList (Tree.substList old new ts) = true
+  | [], _ => rfl
+  | t :: ts, h => by
+    simp only [Tree.substList, Tree.wfBList, Bool.and_eq_true] at h ⊢
+    exact ⟨⟨Tree.canBeChild_subst old new t hr hnc h.1.1, Tree.wfB_subst old new hr hnw hnc t h.1.2⟩,
+      Tree.wfBList_subst old new hr hnw hnc ts h.2⟩
+end
+
+/-- every root is accepted by the constructors -/
+def WFAll (blocks : List Block) : Prop := ∀ T ∈ blocks.flatten, T.wfB = true
+
+theorem FoldData.Ok.wfAll {d : FoldData} {i : Nat} {blocks : List Block} {outs : List NamedOutput}
+    (hd : d.Ok i blocks outs) (hw : WFAll blocks) : WFAll (d.blocks' blocks) := by
+  intro T' hT'
+  rw [hd.flatNew] at hT'
+  obtain ⟨T, hT, rfl⟩ := List.mem_map.mp hT'
+  have hsub := hw _ hd.sub_mem_flat
+  have hnum := hd.hnum
+  rw [hd.hs] at hsub hnum
+  simp only [Tree.wfB, Bool.and_eq_true] at hsub
+  apply Tree.wfB_subst d.ref d.new rfl
+  · unfold FoldData.new; split
+    · exact hsub.2
+    · rw [hd.hs]; simp only [Tree.wfB, Bool.and_eq_true]; exact hsub
+  · unfold FoldData.new; split
+    · exact hsub.1.1
+    · rw [hd.hs]
+      simp only [Tree.numOutputs] at hnum
+      simp [Tree.canBeChild, hnum]
+  · exact hw T (hd.mem_flat hT)
+
+mutual
+theorem wfB_embedTree (roots : List Tree) : ∀ nt : NTree,
+    (∀ r ∈ nt.refs, r.2.1 < (roots[r.1]?.getD default).numOutputs ∧ (roots[r.1]?.getD default).wfB = true) →
+    (embedTree roots nt).wfB = true
+  | .ingredient .., _ => rfl
+  | .step d inputs, h => by
+    simp only [embedTree, Tree.wfB]
+    exact wfB_embedTrees roots inputs (by simpa [NTree.refs] using h)
+  | .nref sid idx a, h => by
+    have := h (sid, idx, a) (by simp [NTree.refs])
+    simp only [embedTree, Tree.wfB, Bool.and_eq_true, decide_eq_true_eq]
+    exact this
+theorem wfB_embedTrees (roots : List Tree) : ∀ nts : List NTree,
+    (∀ r ∈ NTree.refsList nts, r.2.1 < (roots[r.1]?.getD default).numOutputs ∧ (roots[r.1]?.getD default).wfB = true) →
+    Tree.wfBList (embedTrees roots nts) = true
+  | [], _ => rfl
+  | t :: ts, h => by
+    simp only [embedTrees, Tree.wfBList, Bool.and_eq_true]
+    refine ⟨⟨?_, wfB_embedTree roots t (fun r hr => h r (by simp [NTree.refsList, hr]))⟩,
+      wfB_embedTrees roots ts (fun r hr => h r (by simp [NTree.refsList, hr]))⟩
+    have := embedTree_not_sub roots t
+    cases he : embedTree roots t <;> simp [he, Tree.isSub] at this <;> rfl
+end
+
+theorem wfB_root (asts : List (List AStmt)) (ns : List NStmt) (h : Spec.blocks asts = .ok ns) :
+    ∀ (k : Nat) (r : Tree), (rootsOf ns)[k]? = some r → r.wfB = true := by
+  intro k
+  induction k using Nat.strongRecOn with
+  | _ k ih =>
+    intro r hr
+    have hlt : k < ns.length := by
+      have := (List.getElem?_eq_some_iff.mp hr).1; rwa [rootsOf_length] at this
+    have hs : ns[k]? = some ns[k] := List.getElem?_eq_getElem hlt
+    rw [rootsOf_getElem ns k _ hs] at hr
+    cases hr
+    have htree : (embedTree (rootsOf (ns.take k)) (ns[k]).tree).wfB = true := by
+      apply wfB_embedTree
+      intro x hx
+      obtain ⟨key, hdef⟩ := (spec_stmt_facts asts ns h k _ hs).2 x hx
+      obtain ⟨hdef', hxk⟩ := definedNames_take hdef
+      simp only at hxk
+      rw [rootsOf_take_getElem ns k x.1 hxk (by omega)]
+      obtain ⟨s', b', hs', hr', hn'⟩ := root_of_defined ns _ hdef'
+      simp only at hs' hr' hn'
+      rw [hr']
+      simp only [Option.getD_some, Tree.numOutputs]
+      refine ⟨?_, ih x.1 hxk _ hr'⟩
+      cases hx' : s'.names[x.2.1]? with
+      | none => rw [hx'] at hn'; cases hn'
+      | some _ => exact (List.getElem?_eq_some_iff.mp hx').1
+    unfold embedStmt
+    split
+    · exact htree
+    · rename_i hne
+      simp only [Tree.wfB, Bool.and_eq_true]
+      refine ⟨⟨?_, by simpa using hne⟩, htree⟩
+      have := embedTree_not_sub (rootsOf (ns.take k)) (ns[k]).tree
+      cases he : embedTree (rootsOf (ns.take k)) (ns[k]).tree <;> simp [he, Tree.isSub] at this <;> rfl
+
+theorem wfAll_init (asts : List (List AStmt)) (bs : List Block) (st : CState)
+    (h : compileBlocks 0 {} asts = .ok (bs, st)) : WFAll bs := by
+  obtain ⟨ns, hs, _⟩ := (elab_ok_iff asts bs).mp ⟨st, h⟩
+  obtain ⟨_, hflat⟩ := elab_table asts bs st h ns hs
+  intro T hT
+  rw [← hflat] at hT
+  obtain ⟨k, hk⟩ := List.mem_iff_getElem?.mp hT
+  exact wfB_root asts ns hs k T hk
+
+/-- the roots the loop leaves are accepted by the constructors -/
+theorem foldAll_wfAll (asts : List (List AStmt)) (bs : List Block) (st : CState)
+    (h : compileBlocks 0 {} asts = .ok (bs, st)) (n : Nat) (b' : List Block) (o' : List NamedOutput)
+    (hf : foldAll n 0 bs st.outputs = .ok (b', o')) : WFAll b' :=
+  foldAll_preserves (fun b _ => WFAll b) (fun _ _ _ _ hd _ _ hp => hd.wfAll hp) n 0 bs st.outputs
+    (foldInv_init asts bs st h) (refCount_init asts bs st h) (wfAll_init asts bs st h) b' o' hf
+
+
+/-- an accepted description went through the three phases -/
+theorem compile_ok_phases {srcs : List Str} {bs' : List Block} (h : compile srcs = .ok bs') :
+    ∃ asts bs st outs', parseAll 0 srcs = .ok asts ∧ compileBlocks 0 {} asts = .ok (bs, st) ∧
+      elabBlocks srcs = .ok (bs, st) ∧ foldAll st.outputs.length 0 bs st.outputs = .ok (bs', outs') := by
+  cases he : elabBlocks srcs with
+  | error e =>
+    exfalso
+    have hc : compile srcs = e := by unfold compile; rw [he]
+    rw [h] at hc
+    unfold elabBlocks at he
+    cases hp : parseAll 0 srcs with
+    | error e' =>
+      rw [hp] at he
+      have : e' = e := by cases he; rfl
+      rcases parseAll_error srcs 0 e' hp with ⟨b, hb⟩ | ⟨b, hb⟩ <;> rw [← hc, hb] at this <;> cases this
+    | ok asts =>
+      rw [hp] at he
+      exact (C01.elab_no_other_error asts).2.2.2 bs' (by rw [hc]; exact he)
+  | ok p =>
+    obtain ⟨bs, st⟩ := p
+    obtain ⟨asts, hp, hcb⟩ := elabBlocks_ok he
+    obtain ⟨outs', hf⟩ := compile_ok_fold he h
+    exact ⟨asts, bs, st, outs', hp, hcb, rfl, hf⟩
+
 end RG
